@@ -80,6 +80,7 @@ class Ctx:
             if b.name == "drop" and b.impl_trait and b.trait_head == "Drop":
                 self.drop_of[_adt_path(b.impl_self)] = b
         self.summ = {}            # (body id, entry) -> Fn
+        self.helpers = set()      # ids of non-exported shape writers: judged at their call sites, not on their own
         self.entry_of_adt = {}    # adt path -> set of states at its construction sites
 
     def _compute_may_unwind(self):
@@ -192,6 +193,8 @@ class Fn:
         self.exit_states = set()
         self.agg_states = {}     # adt path -> set(states) at its aggregate construction
         self.raw_sites = []      # (span, path, state set)
+        self.closure_sites = []  # (closure body id, state at the call that receives the closure)
+        self.unwind_exits = set()  # (state with which the function is left by unwinding, intermediate?)
         self.instances = []
         b = body
         self.toodee_locals = {i for i, ty in enumerate(b.locals) if re.match(r"^&('\S+ )?mut %s<" % re.escape(cx.toodee_path), norm_ty(ty).replace("&mut ", "&mut ")) or re.match(r"^&mut %s<" % re.escape(cx.toodee_path), norm_ty(ty))}
@@ -284,6 +287,8 @@ class Fn:
                     e = strip(self.d.expr(a))
                     if e[0] in ("ref", "refmut") and self.is_dim_expr(e[1]) is not None:
                         return True
+            if self._replace_dim(t) is not None:
+                return True
             cb = self.cx.f.crate_fn_for_call(fn)
             if not direct and cb is not None and cb.id != self.b.id and is_shape_writer(self.cx, cb):
                 return True
@@ -293,6 +298,19 @@ class Fn:
             if db is not None and db.id != self.b.id and is_shape_writer(self.cx, db):
                 return True
         return False
+
+    def _replace_dim(self, t):
+        """`mem::replace(&mut self.dim, v)` / `mem::take(&mut self.dim)` -> (field, new value is zero?)"""
+        fn = t["func"].get("fn") or {}
+        if fn.get("path") not in ("core::mem::replace", "core::mem::take") or not t["args"]:
+            return None
+        e = strip(self.d.expr(t["args"][0]))
+        if e[0] in ("ref", "refmut"):
+            fld = self.is_dim_expr(e[1])
+            if fld is not None:
+                z = fn["path"] == "core::mem::take" or (len(t["args"]) > 1 and const_usize(strip(self.d.expr(t["args"][1]))) == 0)
+                return fld, z
+        return None
 
     def _find_writes(self):
         w = set()
@@ -354,6 +372,15 @@ class Fn:
                     dims.append(self.is_dim_expr(e[1]))
             if len(dims) == 2 and None not in dims and set(dims) == {self.cx.ROWS, self.cx.COLS}:
                 return (l, c, r) if (r, c) != ("O", "O") else state     # exchanging the two dimensions keeps the product
+        rd = self._replace_dim(t)
+        if rd is not None:
+            if l == "P":
+                l = "V"
+            if rd[0] == self.cx.ROWS:
+                r = "Z" if rd[1] else "V"
+            else:
+                c = "Z" if rd[1] else "V"
+            return (l, r, c)
         cb = self.cx.f.crate_fn_for_call(fn)
         if cb is not None and cb.id != self.b.id and is_shape_writer(self.cx, cb):
             sub = analyse_fn(self.cx, cb, state)
@@ -504,30 +531,43 @@ class Fn:
                             self.restorer_drops.add(ap)
                     if k == "call" and fn.get("path") in RAW_MOVES and re.search(r"/#\d", " ".join(fn.get("args", []))):
                         self.raw_sites.append((t["span"], fn["path"], s8, bb))
+                    if k == "call":
+                        for c in re.findall(r"Closure\(DefId\([^)]*~ ([^)]*)\)", " ".join(fn.get("args", []))):
+                            cb = self.cx._closure_by_mangled(c)
+                            if cb is not None:
+                                self.closure_sites.append((cb.id, s8))
                     if k == "drop" and s8[0] in ("Z", "V") and re.match(r"^[A-Z]\w*/#\d+$", t["ty"]) and any(e["k"] == "deref" for e in t["p"]["proj"]):
                         # `*slot = e` / drop_in_place through a pointer while the buffer is hidden: the slot holds a bitwise
                         # duplicate (or nothing), dropping it drops a live element a second time
                         self.reports.append(("R-HIDE", "drop-in-place", "drops an element in place through a reference into the buffer while the Vec length is lowered (assignment `*slot = x` instead of ptr::write): the slot holds a bitwise copy of a live element", t["span"]))
                     if self.cx.term_may_unwind(t):
-                        unwind_state = s8
+                        cands = [(s8, False)]
                         if k == "call" and fn.get("name") in POST_STATE_UNWIND and self._is_write_term(t) and afters:
-                            unwind_state = afters[0]
+                            cands = [(afters[0], False)]
+                        if k == "call":
+                            hb = self.cx.f.crate_fn_for_call(fn)
+                            if hb is not None and hb.id in self.cx.helpers and hb.id != b.id:
+                                # a private helper: the array is left as the helper leaves it at its own may-unwind points
+                                cands = sorted(analyse_fn(self.cx, hb, s8).unwind_exits) or cands
                         uw = t.get("unwind")
-                        intermediate = self.write_reachable_after(bb, t.get("target"))
-                        if isinstance(uw, int):
-                            outs = self.unwind_outcome(uw, unwind_state, fl, is_drop_impl)
-                        elif uw == "terminate" or uw == "unreachable":
-                            outs = set()
-                        else:
-                            outs = {unwind_state}
-                        bad = sorted(o for o in outs if not _orig_consistent(o))
-                        self.points.append((self.point_key(t), unwind_state, intermediate, sorted(outs)))
-                        if bad and intermediate:
-                            key = (self.point_key(t), unwind_state)
-                            if key not in seen_reports:
-                                seen_reports.add(key)
-                                self.reports.append(("R-UNWIND", "%s@%s" % (self.point_key(t), ",".join(unwind_state)),
-                                                     "%s may unwind while (len,rows,cols)=%s and the function is left with %s: the array keeps dimensions that do not match its contents" % (self.describe(t), unwind_state, bad), t["span"]))
+                        for unwind_state, inner in cands:
+                            intermediate = inner or self.write_reachable_after(bb, t.get("target"))
+                            if isinstance(uw, int):
+                                outs = self.unwind_outcome(uw, unwind_state, fl, is_drop_impl)
+                            elif uw == "terminate" or uw == "unreachable":
+                                outs = set()
+                            else:
+                                outs = {unwind_state}
+                            for o in outs:
+                                self.unwind_exits.add((o, intermediate))
+                            bad = sorted(o for o in outs if not _orig_consistent(o))
+                            self.points.append((self.point_key(t), unwind_state, intermediate, sorted(outs)))
+                            if bad and intermediate:
+                                key = (self.point_key(t), unwind_state)
+                                if key not in seen_reports:
+                                    seen_reports.add(key)
+                                    self.reports.append(("R-UNWIND", "%s@%s" % (self.point_key(t), ",".join(unwind_state)),
+                                                         "%s may unwind while (len,rows,cols)=%s and the function is left with %s: the array keeps dimensions that do not match its contents" % (self.describe(t), unwind_state, bad), t["span"]))
                     if t.get("target") is not None:
                         for a in afters:
                             succs.append((t["target"], a))
@@ -590,6 +630,8 @@ def analyse_fn(cx, body, entry=("O", "O", "O")):
     placeholder.reports = []
     placeholder.agg_states = {}
     placeholder.raw_sites = []
+    placeholder.closure_sites = []
+    placeholder.unwind_exits = set()
     cx.summ[key] = placeholder
     fnr = Fn(cx, body, entry).run()
     fnr.exit_states = {_strip_final(s) for s in fnr.exit_states}
@@ -614,8 +656,17 @@ def r_shape(f):
     _WRITER_MEMO.clear()
     cx = Ctx(f)
     RU, RL, RD, RH = Result("R-UNWIND"), Result("R-LEAK"), Result("R-LEAK-DRAIN"), Result("R-HIDE")
-    writers = [b for b in f.fn_bodies if is_shape_writer(cx, b, direct=True) and not b.d.get("derived")]
-    delegators = [b for b in f.fn_bodies if is_shape_writer(cx, b) and not is_shape_writer(cx, b, direct=True)]
+    def exported(b):
+        return b.kind != "Closure" and (b.d.get("vis") == "Public" or bool(b.impl_trait) or bool(b.trait_provided))
+    # private helpers that write the shape may legitimately return in an intermediate state: they are analysed in the
+    # context of every caller (transfer through the call, unwind states propagated), and their callers are writers
+    cx.helpers = {b.id for b in f.fn_bodies if b.kind != "Closure" and not exported(b) and not b.d.get("derived") and is_shape_writer(cx, b)}
+
+    def calls_helper(b):
+        return any(fn and (f.crate_fn_for_call(fn) is not None) and f.crate_fn_for_call(fn).id in cx.helpers and f.crate_fn_for_call(fn).id != b.id for _, _, fn in b.calls(include_cleanup=True))
+    writers = [b for b in f.fn_bodies if (is_shape_writer(cx, b, direct=True) or calls_helper(b)) and not b.d.get("derived") and b.id not in cx.helpers]
+    helper_bodies = [b for b in f.fn_bodies if b.id in cx.helpers]
+    delegators = [b for b in f.fn_bodies if is_shape_writer(cx, b) and not is_shape_writer(cx, b, direct=True) and b.id not in cx.helpers and not calls_helper(b)]
     # order: functions that construct guard/drain types first, so that destructors get their entry states
     adt_entry = {}
     done = {}
@@ -648,6 +699,16 @@ def r_shape(f):
         if not progress:
             break
     cx.entry_of_adt = adt_entry
+    for hb in helper_bodies:
+        runs = [fnr for (bid, e), fnr in list(cx.summ.items()) if bid == hb.id and isinstance(fnr, Fn) and hasattr(fnr, "points")]
+        done[hb.id] = runs
+        RU.inst(hb.ident, "private helper that writes the shape: not judged on its own, analysed in the context of its callers (entries seen: %s)" % sorted({x.entry for x in runs}), True)
+        seen = set()
+        for fnr in runs:
+            for (rule, desc, msg, span) in fnr.reports:
+                if rule == "R-HIDE" and (rule, desc) not in seen:
+                    seen.add((rule, desc))
+                    RH.fail(hb.ident, desc, "%s: %s" % (hb.ident, msg), hb.where(span), {"entry": fnr.entry})
     n_fn = 0
     for b in writers:
         runs = done.get(b.id)
@@ -729,10 +790,19 @@ def r_shape(f):
             for fnr in done.get(b.id, []) or [analyse_fn(cx, b)]:
                 for span, path, st, bb in fnr.raw_sites:
                     states_at.setdefault((span["lo"], span["col"], path), set()).add(st)
+        # a closure of a writer runs where the writer hands it to a higher-order call: the states there
+        clo_states = None
+        if b.kind == "Closure" and root.id != b.id and is_shape_writer(cx, root, direct=True):
+            clo_states = set()
+            for fnr in done.get(root.id, []) or [analyse_fn(cx, root)]:
+                clo_states |= {st for cid, st in fnr.closure_sites if cid == b.id}
         for bi, t, fn in raw:
             n_raw += 1
             sts = states_at.get((t["span"]["lo"], t["span"]["col"], fn["path"]))
-            if sts is None:
+            if sts is None and clo_states:
+                sts = clo_states
+                src = "states at the call sites in %s that receive this closure" % root.ident
+            elif sts is None:
                 # not a writer itself: use the invariant of the type it is a method of
                 ap = _adt_path(root.impl_self) if root.impl_self else None
                 sts = {_strip_final(s) for s in adt_entry.get(ap, set())} if ap else set()
@@ -901,7 +971,7 @@ def r_shape(f):
                 continue
             seen_b.add((nm, fld))
             RT.fail(b.ident, "stale:%s->%s" % (fname.get(fld, fld), nm), "%s computes the argument of %s from self.%s read after the function has already changed that field: the removed / inserted line's extent is then computed from the new dimension (e.g. an empty range when the last line is removed)" % (b.ident, nm, fname.get(fld, fld)), b.where(sp))
-    RU.require_floor(n_fn, 7, "shape-writing functions")
-    RH.require_floor(n_raw, 11, "raw-move call sites")
+    RU.require_floor(n_fn, 6, "shape-writing functions")
+    RH.require_floor(n_raw, 6, "raw-move call sites")
     RD.require_floor(n_drain, 1, "Vec::drain sites over the array buffer")
     return [RU, RL, RD, RH, RR, RS, RO, RT], {"writers": [b.ident for b in writers], "raw_sites": n_raw, "delegators": [b.ident for b in delegators], "adt_entry": {k: sorted(v) for k, v in adt_entry.items() if "toodee" in k or "iter::" in k}}
